@@ -251,7 +251,9 @@ class HeldBus:
                 self.callback = callback
 
             async def subscribe(self, topics):
-                for t in list(topics):
+                topics = list(topics)
+                bus.trace.log("subscribe", cid=self.cid, topics=topics)
+                for t in topics:
                     bus.topics.setdefault(t, [])
                     bus.cursors.setdefault((self, t), 0)
                 bus._kick()
@@ -318,7 +320,9 @@ class KafkaFakeBus:
                 self.started = True
 
             def subscribe(self, topics):
-                for t in list(topics):
+                topics = list(topics)
+                bus.trace.log("subscribe", cid=self.cid, topics=topics)
+                for t in topics:
                     bus.topics.setdefault(t, [])
                     self.cursors.setdefault(t, 0)
                 self.wake.set()
